@@ -175,6 +175,8 @@ def canon(e: ast.expr) -> str:
         return "(" + (" and " if isinstance(e.op, ast.And) else " or ").join(parts) + ")"
     if isinstance(e, (ast.List, ast.Tuple)):
         return "[" + ", ".join(canon(x) for x in e.elts) + "]"
+    if isinstance(e, ast.Dict) and all(k is not None for k in e.keys):
+        return "{" + ", ".join(f"{canon(k)}: {canon(v)}" for k, v in zip(e.keys, e.values)) + "}"  # type: ignore[arg-type]
     return src(e)
 
 
